@@ -254,6 +254,12 @@ func mutateStructural(w *World, m storage.Message, by int, kind string) (storage
 		rs, re := -1-w.Tape.Choose(5, "rs"), 1+w.Tape.Choose(3, "re")
 		if kind == "baked-range-huge" {
 			rs, re = 18630, 18640+w.Tape.Choose(1<<20, "re")
+			if w.Tape.Bool(1, 2, "atTheEdge") {
+				// positions right at the end of the list (18632 entries; the embedded
+				// text ends with a newline, so splitting it yields 18633 pieces)
+				rs = []int{18630, 18631, 18632, 18633, 18634, 18635}[w.Tape.Choose(6, "edgeStart")]
+				re = rs + 1 + w.Tape.Choose(2, "edgeLen")
+			}
 		}
 		req["BatchID"] = fmt.Sprintf("c18-%d", len(w.Board.Msgs))
 		req["SigningTasks"] = []interface{}{map[string]interface{}{"MessageID": "x", "RangeStart": rs, "RangeEnd": re}}
@@ -450,6 +456,10 @@ func runC18(w *World, tier string) (bool, interface{}) {
 							rs, re := -3, 2
 							if kind == "baked-range-huge" {
 								rs, re = 18631, 1<<20
+								if w.Tape.Bool(1, 2, "atTheEdge") {
+									rs = []int{18630, 18631, 18632, 18633, 18634, 18635}[w.Tape.Choose(6, "edgeStart")]
+									re = rs + 1 + w.Tape.Choose(2, "edgeLen")
+								}
 							}
 							src, _ := json.Marshal([]map[string]interface{}{{"MessageID": "x", "RangeStart": rs, "RangeEnd": re}})
 							pl, _ := json.Marshal(map[string]interface{}{"BatchID": "b", "SrcPayload": src})
